@@ -3,6 +3,7 @@
 # string the real formatter produces for it in every format.  txt / md / csv / json of `list` and txt / md / csv of `diff` are
 # compared BYTE FOR BYTE with the Gallina format model (Model/Format.v); every format incl. dot is parsed back to rows and
 # compared with the API result and with every other format.
+import re
 from . import c04, c06
 from .lib import core, gen, listcorr, fmt
 from .lib.core import cstr, cnat, clist, cbool
@@ -23,6 +24,22 @@ def c_dpeers(o):
     """the analyzer's peers as the dot model wants them: string, external?, ip?, label name[kind], namespace"""
     return clist(['(mkDP %s %s %s %s %s)' % (cstr(p['str']), cbool(p['ip'] or p.get('name') == 'ingress-controller'), cbool(p['ip']),
                                             cstr('%s[%s]' % (p.get('name', ''), p.get('kind', ''))), cstr(p.get('ns', ''))) for p in o['peers']])
+
+
+def c_diff_dpeers(od):
+    """the peers of a ConnectivityDiff as the diff dot model wants them (a workload string is namespace/name[Kind])"""
+    strs = set()
+    for t in ('added', 'removed', 'changed', 'unchanged'):
+        for e in od['diff'].get(t) or []:
+            strs.add(e['src']); strs.add(e['dst'])
+    res = []
+    for s_ in sorted(strs):
+        m = re.match(r'^([^/{}]+)/(.+\[[A-Za-z]+\])$', s_)
+        if m and not c04.is_ip_str(s_):
+            res.append('(mkDP %s false false %s %s)' % (cstr(s_), cstr(m.group(2)), cstr(m.group(1))))
+        else:
+            res.append('(mkDP %s true %s %s %s)' % (cstr(s_), cbool(c04.is_ip_str(s_)), cstr(s_), cstr('')))
+    return clist(res)
 
 
 def c_xsel(sel):
@@ -71,7 +88,7 @@ def main(tier):
                 metas.append((cid, W, W2, d1, d2))
             outs = h.run(cmds)
             per = len(LIST_FORMATS) + len(DIFF_FORMATS)
-            lcases, dcases, tcases, xcases, x3cases, xinfo, info = [], [], [], [], [], {}, {}
+            lcases, dcases, tcases, xcases, x3cases, ddcases, xinfo, info = [], [], [], [], [], [], {}, {}
             for j, (cid, W, W2, d1, d2) in enumerate(metas):
                 lo = dict(zip(LIST_FORMATS, outs[per * j: per * j + len(LIST_FORMATS)]))
                 do = dict(zip(DIFF_FORMATS, outs[per * j + len(LIST_FORMATS): per * (j + 1)]))
@@ -139,6 +156,8 @@ def main(tier):
                                 run.report(None, 'dnodes-dot-%d' % cid, dict(payload, format='dot', output=o.get('out'), peer=badn[0], expected=wantn.get(badn[0]), found=gotn.get(badn[0])),
                                            'the diff dot output does not declare every peer of the diff exactly once with its label and new/lost colour')
                                 ok = False
+                    if ok and do['dot']['outcome'] == 'ok' and do['dot'].get('out'):
+                        ddcases.append('(mkDDot %s %s %s %s)' % (cnat(cid), c04.c_diff(do['dot'], lambda s: s), c_diff_dpeers(do['dot']), cstr(do['dot']['out'])))
                     if ok:
                         rn = lambda s: s
                         dcases.append('(mkDFmt %s %s %s %s %s)' % (cnat(cid), c04.c_diff(dt, rn), cstr(do['txt'].get('out', '')), cstr(do['md'].get('out', '')), cstr(do['csv'].get('out', ''))))
@@ -199,13 +218,14 @@ def main(tier):
             run.cov['traces_validated_against_impl'] += len(metas)
             if k == 0 and metas:
                 run.sample({'list_txt': info[metas[0][0]][1]['txt'].get('out', '')[:600]})
-            text = ['From Coq Require Import List ZArith String.', 'From NP Require Import IntervalSet ConnSet World Build Connlist Diff Format XFormat XFormatMore RowInj.',
+            text = ['From Coq Require Import List ZArith String.', 'From NP Require Import IntervalSet ConnSet World Build Connlist Diff Format DiffDot XFormat XFormatMore RowInj.',
                     'Import ListNotations.', 'Open Scope Z_scope.', 'Definition lcases : list fmt_case := [', ';\n'.join(lcases), '].',
                     'Definition dcases : list dfmt_case := [', ';\n'.join(dcases), '].',
                     'Definition xcases : list xfmt_case := [', ';\n'.join(xcases), '].', 'Definition XM := Eval vm_compute in xfmt_mismatches xcases.',
+                    'Definition ddcases : list ddot_case := [', ';\n'.join(ddcases), '].', 'Definition DDM := Eval vm_compute in ddot_mismatches ddcases.',
                     'Definition x3cases : list xfmt3_case := [', ';\n'.join(x3cases), '].', 'Definition X3M := Eval vm_compute in xfmt3_mismatches x3cases.',
                     'Definition tcases : list dot_case := [', ';\n'.join(tcases), '].', 'Definition TM := Eval vm_compute in dot_mismatches tcases.',
-                    'Definition MM := Eval vm_compute in fmt_mismatches lcases.', 'Definition DM := Eval vm_compute in dfmt_mismatches dcases.', 'Definition PM := Eval vm_compute in printable_mismatches lcases.', 'Print MM.', 'Print DM.', 'Print PM.', 'Print TM.', 'Print XM.', 'Print X3M.']
+                    'Definition MM := Eval vm_compute in fmt_mismatches lcases.', 'Definition DM := Eval vm_compute in dfmt_mismatches dcases.', 'Definition PM := Eval vm_compute in printable_mismatches lcases.', 'Print MM.', 'Print DM.', 'Print PM.', 'Print TM.', 'Print XM.', 'Print X3M.', 'Print DDM.']
             rc, out, err = core.run_coq_text('\n'.join(text))
             if rc != 0:
                 raise RuntimeError('coqc on format cases failed: ' + err[-1500:])
@@ -225,6 +245,13 @@ def main(tier):
                 else:
                     run.report(None, 'xbytes-txt-%d' % cid, dict(payload, format='txt', output=xo['txt'].get('out'), exposure=xo['txt'].get('exposure')),
                                'list --exposure txt output differs byte-wise from the exposure-format model applied to the API result')
+            ddm = core.parse_pairs(out, 'DDM')
+            if ddm is None:
+                raise RuntimeError('no DDM in coqc output')
+            for cid, code in ddm[:4]:
+                payload, lo, do = info[cid]
+                run.report(None, 'dbytes-dot-%d' % cid, dict(payload, format='dot', output=do['dot'].get('out')),
+                           'diff dot output differs byte-wise from the format model applied to the API result')
             x3m = core.parse_pairs(out, 'X3M')
             if x3m is None:
                 raise RuntimeError('no X3M in coqc output')
